@@ -537,12 +537,19 @@ var tableIDs = func() []int {
 	return ids
 }()
 
+// seqAlphabets: nucleotides in either case, IUPAC and gap letters, every ASCII letter, and what else a pasted sequence
+// may hold - digits, blanks, line breaks, punctuation (the characters that share their low five bits with A, C, G or T
+// among them).
+var seqAlphabets = []string{"ACGT", "ACGT", "acgt", "ACGTacgt", "ACGTN", "ACGTURYKMSWacgtnx-*",
+	"ABCDEFGHIJKLMNOPQRSTUVWXYZabcdefghijklmnopqrstuvwxyz",
+	"ACGTACGTACGTacgtacgt!#'4$%17ADGTadgt\"3CSsc&Ww \n\t0123456789.,;:/()[]<>=+_~^`@|{}?"}
+
 // genSeq: a coding sequence; one in five is shaped like a complete gene of table id (start codon, whole codons, stop codon).
 func genSeq(t *rapid.T, id int) vk.SeqSpec {
 	if rapid.IntRange(0, 4).Draw(t, "gene_shaped") == 0 {
 		return vk.SeqSpec{Lit: ctab.DrawGene(t, "gene", id, 33000)}
 	}
-	alpha := rapid.SampledFrom([]string{"ACGT", "ACGT", "acgt", "ACGTacgt", "ACGTN", "ACGTURYKMSWacgtnx-*"}).Draw(t, "seq_alphabet")
+	alpha := rapid.SampledFrom(seqAlphabets).Draw(t, "seq_alphabet")
 	return vk.DrawSeq(t, "seq", alpha, 0, 100000)
 }
 
